@@ -87,6 +87,19 @@ type Arrival struct {
 	View []ViewEnt `json:"view"`
 }
 
+// Landing: where a payload file name of a directory field resolves to
+// (filepath.Join(directory, name), computed by the harness on its own), and
+// what was at that very path right before and right after the request -- read
+// directly with os.ReadFile, whatever the place.
+type Landing struct {
+	Src      int    `json:"src"`
+	Name     string `json:"name"`
+	Path     string `json:"path_rel_to_box"`
+	StaysIn  bool   `json:"stays_inside_its_directory"`
+	ShaBefor string `json:"sha256_before"` // "absent" / "directory" / digest
+	ShaAfter string `json:"sha256_after"`
+}
+
 type Case struct {
 	Handler     string         `json:"handler"` // configuration | apply_flows
 	Method      string         `json:"method"`
@@ -106,6 +119,8 @@ type Case struct {
 	Arrivals   []Arrival   `json:"arrivals"`
 	FaultFired bool        `json:"fault_fired"`
 	RollbackAt int         `json:"rollback_started_at_hook"` // hook index at the first Restore call, -1: none
+	Landings   []Landing   `json:"landings"`
+	TreeBefore []Ent       `json:"tree_before_observed"` // the walk of box right before the request
 	Views      [][]ViewEnt `json:"distinct_views_in_order"`
 }
 
@@ -165,7 +180,7 @@ func (s *sut) classify(abs string) (int, string) {
 	abs = filepath.Clean(abs)
 	under := func(dir string) (string, bool) {
 		r, err := filepath.Rel(dir, abs)
-		if err != nil || r == "." || strings.HasPrefix(r, "..") {
+		if err != nil || r == "." || r == ".." || strings.HasPrefix(r, "../") {
 			return "", false
 		}
 		return r, true
@@ -209,11 +224,12 @@ func (s *sut) abs(area int, rel string) string {
 	return filepath.Join(s.L.root, rel)
 }
 
-// tree lists every regular file of the configuration tree (generated artefacts
-// under gen/ are not part of it).
+// tree lists every regular file below box: the configuration places and
+// everything around them up to three levels above the directories (generated
+// artefacts live in cwd/gen, outside box, and are not part of it).
 func (s *sut) tree() []Ent {
 	var out []Ent
-	for _, top := range []string{filepath.Join(s.L.root, "cfg"), filepath.Join(s.L.root, "internal"), s.L.outside} {
+	for _, top := range []string{s.L.box} {
 		_ = filepath.WalkDir(top, func(p string, d fs.DirEntry, err error) error {
 			if err != nil || d.IsDir() {
 				return nil
@@ -241,10 +257,8 @@ func sortEnts(e []Ent) {
 }
 
 func (s *sut) wipe() {
-	for _, d := range []string{filepath.Join(s.L.root, "cfg"), filepath.Join(s.L.root, "internal"), s.L.outside} {
-		if err := os.RemoveAll(d); err != nil {
-			panic(err)
-		}
+	if err := os.RemoveAll(s.L.box); err != nil {
+		panic(err)
 	}
 	for _, d := range []string{s.L.flows, s.L.quotas, s.L.pathParams, filepath.Dir(s.L.metricsDefault), filepath.Dir(s.L.gen), s.L.outside} {
 		if err := os.MkdirAll(d, 0o755); err != nil {
@@ -393,7 +407,17 @@ func (s *sut) body(k *Case) []byte {
 // exec runs one update on the implementation and fills the observed fields.
 func (s *sut) exec(k *Case) {
 	k.Status, k.After, k.HookSeq, k.Arrivals, k.FaultFired, k.Views, k.RollbackAt = 0, nil, nil, nil, false, nil, -1
+	k.Landings, k.TreeBefore = nil, nil
 	s.resetTo(k.Before)
+	k.TreeBefore = s.tree()
+	for _, e := range k.Payload {
+		if dir := s.dirOf(e.Src); dir != "" {
+			p := filepath.Join(dir, e.Name)
+			rel, _ := filepath.Rel(s.L.box, p)
+			k.Landings = append(k.Landings, Landing{Src: e.Src, Name: e.Name, Path: rel,
+				StaysIn: p != dir && strings.HasPrefix(p, dir+string(filepath.Separator)), ShaBefor: shaAt(p)})
+		}
+	}
 	names := map[string]bool{}
 	for _, e := range k.Before {
 		if e.Area == aFlows {
@@ -418,11 +442,41 @@ func (s *sut) exec(k *Case) {
 	s.run = nil
 	k.Status = rec.Code
 	k.After = s.tree()
+	for i := range k.Landings {
+		k.Landings[i].ShaAfter = shaAt(filepath.Join(s.L.box, k.Landings[i].Path))
+	}
 	for _, a := range k.Arrivals {
 		if n := len(k.Views); n == 0 || !sameView(k.Views[n-1], a.View) {
 			k.Views = append(k.Views, a.View)
 		}
 	}
+}
+
+func (s *sut) dirOf(src int) string {
+	switch src {
+	case aFlows:
+		return s.L.flows
+	case aQuotas:
+		return s.L.quotas
+	case aPathParams:
+		return s.L.pathParams
+	}
+	return ""
+}
+
+func shaAt(p string) string {
+	st, err := os.Lstat(p)
+	if err != nil {
+		return "absent"
+	}
+	if st.IsDir() {
+		return "directory"
+	}
+	b, err := os.ReadFile(p)
+	if err != nil {
+		return "unreadable: " + err.Error()
+	}
+	return sha(string(b))
 }
 
 func sameView(a, b []ViewEnt) bool {
@@ -489,6 +543,14 @@ func coq(k *Case) string {
 	if k.Fault >= 0 {
 		fault = c.Some(c.Nat(k.Fault))
 	}
+	// the hook calls made before Restore was first called: the clean-up and the saves
+	saveHooks := k.HookSeq
+	if k.RollbackAt >= 0 && k.RollbackAt <= len(saveHooks) {
+		saveHooks = saveHooks[:k.RollbackAt]
+	}
+	hookPaths := func(es []HookEv) string {
+		return c.MapList(es, func(e HookEv) string { return coqPath(e.Area, e.Rel) })
+	}
 	return c.Tuple(
 		c.Tuple(c.N(uint64(h)), c.B(k.Method == http.MethodPut), c.B(k.BodyOK)),
 		coqDisk(k.Before),
@@ -497,7 +559,7 @@ func coq(k *Case) string {
 		}),
 		c.Tuple(coqNs(k.BadContents), coqNs(k.BadMetrics)),
 		fault,
-		c.MapList(k.HookSeq, func(e HookEv) string { return coqPath(e.Area, e.Rel) }),
+		c.Tuple(hookPaths(saveHooks), hookPaths(k.HookSeq)),
 		c.Tuple(c.B(k.Status == 200), coqDisk(k.After), c.MapList(k.Views, coqView)),
 	)
 }
@@ -512,7 +574,9 @@ func main() {
 	o.DeclareSuite("update", "From Verif Require Import C08.Model.", "case", "run_case")
 	o.Rule("generated (disk, payload, handler) triples: payloads add / change / re-send / (apply_flows) remove files of the " +
 		"five configuration places, with undecodable base64, undecodable JSON, wrong HTTP method, contents failing " +
-		"validation, contents failing the metrics reload, file names escaping their directory, sub-directories; each triple is " +
+		"validation, contents failing the metrics reload, file names leaving their directory (../x, ../../outside/x, a/../../x, onto a " +
+		"sibling directory, onto the gateway file, onto an existing outside file, the directory itself), odd names that stay " +
+		"inside (sub/x, ./x, a/../x, /abs/x, ..x); each triple is " +
 		"run without fault and then once per verifhook.Fault call index of that run (fs.store, fs.remove, engine.init; for a " +
 		"bad payload the calls of the roll-back are included), probes at every hook call, at the engine.published yield, " +
 		"before and after; distinct = distinct (inputs, observables); non-trivial = the update failed after at least one " +
@@ -579,6 +643,12 @@ func (s *sut) runCase(o *c.Out, k *Case) {
 	}
 	o.Count(fmt.Sprintf("distinct_views=%d", len(k.Views)))
 	o.Count("kind=" + k.Label)
+	for _, l := range k.Landings {
+		if !l.StaysIn {
+			o.Count(fmt.Sprintf("escaping_name_status=%d", k.Status))
+			break
+		}
+	}
 	idx := o.Case("update", coq(k), k, nontrivial)
 	o.MonitorChecked(1)
 	for _, h := range monitor(k) {
